@@ -1529,12 +1529,16 @@ def evaluate__serialize(self: XPathFunction, context: ta.ContextType = None) -> 
     method_ = kwargs.get('method', 'xml')
     if method_ in ('xml', 'html', 'text'):
         etree_module = context.etree
+        # The default namespace is not registered: ElementTree would write also the
+        # attributes of that namespace without a prefix, that moves them to no namespace.
         if context.namespaces:
             for pfx, uri in context.namespaces.items():
-                etree_module.register_namespace(pfx, uri)
+                if pfx:
+                    etree_module.register_namespace(pfx, uri)
         else:
             for pfx, uri in self.parser.namespaces.items():
-                etree_module.register_namespace(pfx, uri)
+                if pfx:
+                    etree_module.register_namespace(pfx, uri)
 
         return serialize_to_xml(self[0].select(context), etree_module, **kwargs)
 
